@@ -102,10 +102,28 @@ CASE_T = 'styles * bool * list group'
 SYSTEM_KEYWORDS = ('cyclic', 'numeric', 'alphabetic', 'symbolic', 'additive', 'fixed')
 
 
+def reachable(user, name):
+    """the user styles the rendering of `name` can involve: closure over `extends` targets and fallbacks."""
+    names = {k: d for k, d in user}
+    seen, todo = {}, [name] if isinstance(name, str) else []
+    while todo:
+        n = todo.pop()
+        if n in seen or n not in names:
+            continue
+        d = names[n]
+        seen[n] = d
+        if d['system'] and d['system'][0]:
+            todo.append(d['system'][1])
+        todo.append(d['fallback'] or 'decimal')
+    return seen
+
+
 def classify(user, q, out, base_names=()):
     """signature (mechanism) of a deviation from the specification observed on query q; None = not a known one.
-    Odd features (system keywords as names, extends+symbols, lists mixing auto) are only generated in `odd` cases."""
-    names = {k: d for k, d in user}
+    Only the styles reachable from the queried name (extends / fallback closure) are looked at, so that an odd rule
+    elsewhere in the sheet cannot excuse a wrong rendering of a clean style."""
+    all_names = {k for k, _ in user}
+    names = reachable(user, q[1])
     if out[0] == 'exc':
         if out[1].startswith('IndexError') and any(d['symbols'] == [] for d in names.values()):
             return 'c15:extends-with-symbols-indexerror'
@@ -117,7 +135,7 @@ def classify(user, q, out, base_names=()):
     if any(d['system'] and d['system'][0] and (d['symbols'] is not None or d['additive_symbols'] is not None)
            for d in names.values()):
         return 'c15:extends-with-symbols-accepted'
-    if any(d['system'] and d['system'][0] and d['system'][1] not in names and d['system'][1] not in base_names
+    if any(d['system'] and d['system'][0] and d['system'][1] not in all_names and d['system'][1] not in base_names
            for d in names.values()):
         return 'c15:extends-unknown-drops-descriptors'
     if any(d['system'] and d['system'][0] for d in names.values()) and \
@@ -196,7 +214,8 @@ def gen_rule(rng, name, all_names, odd):
         else:
             ds.append('range: %s, %s' % (one(), one()))
     if rng.random() < 0.35:
-        ds.append('negative: ' + rng.choice(['"-"', '"(" ")"', '"neg"', '"" ""', '"−"', 'minus', '"<" ""']))
+        ds.append('negative: ' + rng.choice(['"-"', '"(" ")"', '"(" ")"', '"neg"', '"" ""', '"−"', 'minus', '"<" ""',
+                                             '"" ")"', '"-" " cr"', '"((" "))"', '"m " " é"']))
     if rng.random() < 0.35:
         ds.append('pad: %d %s' % (rng.choice([0, 1, 2, 3, 5, 8]), q(rng.choice(['0', ' ', 'xy', '', '*']))))
     if rng.random() < 0.25:
@@ -324,59 +343,160 @@ def load_corpus(kind):
 
 # --------------------------------------------------------------------------------- stream driver
 
-def run_style_cases(run, stream, tag, cases, base_entries, with_spec, per_file):
+CHUNK = 60        # queries per Coq case (the judge's result encodes two indices < 64)
+
+WHAT = {
+    'c15:extends-with-symbols-indexerror': 'IndexError in render_value for an extending style with an empty symbols descriptor',
+    'c15:extends-with-symbols-accepted': '@counter-style with `system: extends` and symbols/additive-symbols is not rejected',
+    'c15:extends-unknown-drops-descriptors': 'a style extending an undefined style loses its own descriptors (plain decimal is printed)',
+    'c15:style-named-like-a-system': 'a counter style whose name is a system keyword confuses the fallback cycle detection',
+    'c15:extends-ancestors-in-fallback-cycle-list': 'the styles met while resolving `extends` count as already tried when following fallbacks (decimal is used instead of the fallback style)',
+}
+
+
+def run_style_cases(run, stream, tag, cases, base_entries, with_spec, per_file=None, impl_fn='render_queries',
+                    via='direct calls of render_value / render_marker'):
     """cases: impl cases (dicts).  Returns number of queries evaluated."""
     import time
     t0 = time.time()
-    outs = common.run_impl('impl_c15', 'render_queries', cases, limit=120, chunksize=2)
+    outs = common.run_impl('impl_c15', impl_fn, cases, limit=120, chunksize=2)
     t1 = time.time()
-    coq, kept = [], []
+    coq, owner = [], []          # one Coq case per chunk of <= CHUNK queries; owner = (case, offset)
     for c, (st, o) in zip(cases, outs):
         if st != 'ok':
-            run.fail('render_queries harness call failed: %s' % (o,), {'stream': stream, 'case': c, 'outcome': o},
-                     signature='c15:harness')
+            if impl_fn == 'render_queries':
+                run.fail('render_queries harness call failed: %s' % (o,), {'stream': stream, 'case': c, 'outcome': o},
+                         signature='c15:harness')
+            else:
+                run.fail('render of a document using @counter-style %s' % (
+                    'timed out' if st == 'timeout' else 'raised %s at %s' % (o['type'], o['site'])),
+                    {'stream': stream, 'css': c.get('css'), 'queries': c['queries'], 'outcome': o},
+                    signature='timeout' if st == 'timeout' else 'crash:%s' % (o['site'],))
             continue
         c = dict(c, user=o['user'], outs=o['outs'])
-        kept.append(c)
-        coq.append(caselit(o['user'], with_spec and not c.get('nospec'), c['queries'], o['outs']))
+        for k in range(0, len(c['queries']), CHUNK):
+            coq.append(caselit(o['user'], with_spec and not c.get('nospec'), c['queries'][k:k + CHUNK], o['outs'][k:k + CHUNK]))
+            owner.append((c, k))
     pre = PRE_STYLE + 'Definition base : styles :=\n %s.\n' % styleslit(base_entries)
     try:
-        res = common.eval_cases(tag, pre, CASE_T, coq, 'judge_case base', per_file=per_file)
+        res = common.eval_cases(tag, pre, CASE_T, coq, 'judge_case base', per_file=per_file or len(coq) // 16 + 1)
     except RuntimeError as exc:
         run.oblige('corr:' + stream, False, str(exc))
         return 0
-    run.stream_info(stream, impl_s=round(t1 - t0, 1), coq_s=round(time.time() - t1, 1))
-    mism, nq = [], 0
-    sigs = {}
-    for c, r in zip(kept, res):
-        nq += len(c['queries'])
-        mask, first = r % 4, r // 4
+    run.stream_info(stream, impl_s=round(t1 - t0, 1), coq_s=round(time.time() - t1, 1), coq_cases=len(coq))
+    mism, nq, sigs, unclassified = [], 0, {}, []
+    base_names = [k for k, _ in base_entries]
+    for (c, k), r in zip(owner, res):
+        nq += min(CHUNK, len(c['queries']) - k)
+        mask, idx = r % 4, r // 4
         if mask == 0:
             continue
-        # locate the failing queries of this case precisely (re-evaluated one by one only when needed)
-        qi = first - 1
-        query, out = c['queries'][qi], c['outs'][qi]
-        data = {'stream': stream, 'css': c.get('css'), 'raw': c.get('raw'), 'use_ua': c.get('use_ua', True),
-                'user': c['user'], 'query': query, 'impl': out, 'mask': mask}
-        if mask & 1:
-            mism.append(data)
-        if mask & 2:
-            sig = classify(c['user'], query, out, [k for k, _ in base_entries])
-            if sig is None or sig not in sigs:
+        i0, i1 = idx // 64, idx % 64
+        def data_of(i):
+            return {'stream': stream, 'css': c.get('css'), 'raw': c.get('raw'), 'use_ua': c.get('use_ua', True),
+                    'user': c['user'], 'query': c['queries'][k + i - 1], 'impl': c['outs'][k + i - 1], 'via': impl_fn}
+        if mask & 1 and i0:
+            mism.append(data_of(i0))
+        if mask & 2 and i1:
+            data = data_of(i1)
+            sig = classify(c['user'], data['query'], data['impl'], base_names)
+            if sig is None:
+                unclassified.append(data)
+            elif sig not in sigs:
                 sigs[sig] = data
     run.oblige('corr:%s(model = counters.py, strings compared)' % stream, not mism,
                'first disagreements: %s' % json.dumps(mism[:2])[:3000])
-    for sig, data in sigs.items():
-        what = {
-            'c15:extends-with-symbols-indexerror': 'IndexError in render_value for an extending style with an empty symbols descriptor',
-            'c15:extends-with-symbols-accepted': '@counter-style with `system: extends` and symbols/additive-symbols is not rejected',
-            'c15:extends-unknown-drops-descriptors': 'a style extending an undefined style loses its own descriptors (plain decimal is printed)',
-            'c15:style-named-like-a-system': 'a counter style whose name is a system keyword confuses the fallback cycle detection',
-            'c15:extends-ancestors-in-fallback-cycle-list': 'the styles met while resolving `extends` count as already tried when following fallbacks (decimal is used instead of the fallback style)',
-        }.get(sig, 'render_value output differs from CSS Counter Styles 3')
+    for sig, data in list(sigs.items()) + [(None, d) for d in unclassified[:2]]:
+        what = WHAT.get(sig, 'counter representation differs from CSS Counter Styles 3 (%s)' % via)
         run.fail('%s: %s(%s) printed %r' % (what, data['query'][1], data['query'][2], data['impl']), data,
                  signature=sig)
     return nq
+
+
+# ------------------------------------------------------- pad x negative, systematically (direct and rendered)
+
+NEG_PREFIX = ['-', '(', 'neg ', '', '\u2212\u2212', '<<']
+NEG_SUFFIX = [')', ' cr', '))', '\u00e9', '>', '']
+PAD_SYMBOLS = ['0', '0', '*', ' ', 'xy', '']
+
+
+def gen_padneg_case(rng, nvalues):
+    """one clean sheet (no extends, no odd names, fallback decimal): a base style of each chosen system with a
+    two-part negative (prefix AND suffix, multi-character ones included) and ten copies that differ by consecutive
+    pad values, so that pad = natural length - 1, + 0, + 1 occurs for the values queried (-1, -10, range minimum...)."""
+    system = rng.choice(['numeric', 'numeric', 'alphabetic', 'symbolic', 'additive', 'cyclic', 'fixed'])
+    lo = rng.choice([-1000, -60, -12])
+    ds = []
+    if system == 'numeric':
+        base = rng.choice([2, 3, 10, 10])
+        syms = [str(i) for i in range(base)] if rng.random() < 0.7 else [rng.choice(['a', 'b', 'xy', '〇']) for _ in range(base)]
+        ds.append('system: numeric; symbols: ' + ' '.join(q(x) for x in syms))
+        if rng.random() < 0.5:
+            ds.append('range: %d 5000' % lo)
+    elif system in ('alphabetic', 'symbolic'):
+        syms = rng.choice([['a', 'b'], ['a', 'b', 'c'], ['x', 'yz'], ['*']]) if system == 'symbolic' else \
+            rng.choice([['a', 'b'], ['a', 'b', 'c'], ['x', 'yz', 'w']])
+        ds.append('system: %s; symbols: %s' % (system, ' '.join(q(x) for x in syms)))
+        ds.append(rng.choice(['range: %d 5000' % lo, 'range: infinite infinite']))     # auto would exclude negatives
+    elif system == 'additive':
+        ds.append('system: additive; additive-symbols: ' + rng.choice([
+            '10 "X", 9 "IX", 5 "V", 4 "IV", 1 "I"', '100 "C", 10 "X", 1 "I", 0 "Z"', '5 "V", 2 "II"', '7 "S", 1 "i"']))
+        ds.append(rng.choice(['range: %d 5000' % lo, 'range: infinite infinite']))
+    elif system == 'cyclic':
+        ds.append('system: cyclic; symbols: ' + ' '.join(q(x) for x in rng.choice([['a'], ['a', 'b', 'c'], ['xy', 'z']])))
+    else:
+        ds.append('system: fixed %d; symbols: %s' % (rng.choice([-12, -3, 0, 1]),
+                                                    ' '.join(q(x) for x in ['a', 'b', 'cd', 'e', 'f', 'g', 'h', 'i'][:rng.choice([3, 8])])))
+    pre = rng.choice(NEG_PREFIX)
+    suf = rng.choice(NEG_SUFFIX[:5]) if rng.random() < 0.85 else ''
+    ds.append('negative: %s %s' % (q(pre), q(suf)))
+    padsym = rng.choice(PAD_SYMBOLS)
+    k0 = rng.choice([0, 1, 2, 3, 4])
+    if rng.random() < 0.3:
+        ds.append('prefix: %s; suffix: %s' % (q(rng.choice(['', '[', 'No. '])), q(rng.choice(['', '] ', '.']))))
+    rules, names = [], []
+    for i in range(10):
+        name = 'p%d' % i
+        names.append(name)
+        rules.append('@counter-style %s { %s; pad: %d %s }' % (name, '; '.join(ds), k0 + i, q(padsym)))
+    vals = [-1, -2, -9, -10, -11, -100, lo, lo + 1, lo - 1, 0, 1, 10]
+    vals += [rng.randint(-120, -1) for _ in range(3)] + [rng.randint(-5000, 5000)]
+    vals = sorted(set(vals))
+    if len(vals) > nvalues:
+        keep = [-1, -10, lo]
+        vals = sorted(set(keep + rng.sample([v for v in vals if v not in keep], nvalues - len(keep))))
+    queries = []
+    for name in names:
+        for v in vals:
+            queries.append([False, name, v])
+        queries.append([True, name, rng.choice([-1, -10, lo])])
+    return {'css': '\n'.join(rules), 'use_ua': True, 'queries': queries, 'odd': False, 'system': system,
+            'negative': [pre, suf], 'pad': [k0, padsym]}
+
+
+def padneg_streams(run, rng, ua, thorough):
+    cases = [gen_padneg_case(rng, 16) for _ in range(240 if thorough else 36)]
+    n = run_style_cases(run, 'pad-negative-direct', 'c15pn', cases, ua, True)
+    run.count('pad-negative-direct', n, [c['css'] for c in cases], samples=[cases[0]['css'][:400]])
+    run.stream_info('pad-negative-direct', systems=sorted({c['system'] for c in cases}),
+                    two_part_negatives=sum(1 for c in cases if c['negative'][0] and c['negative'][1]),
+                    rule='per case one clean style (numeric, alphabetic, symbolic, additive; cyclic and fixed where the sign '
+                         'does not apply) with negative prefix AND suffix (1-3 characters, empty ones sometimes) and ten copies '
+                         'with consecutive pad values (pad symbol 1 or 2 characters or empty), values -1 -2 -9 -10 -11 -100, '
+                         'the range minimum and its neighbours, 0 1 10 and random ones: pad = natural length -1 / +0 / +1 '
+                         'occurs for each; render_value and render_marker called directly')
+    cases = [gen_padneg_case(rng, 6) for _ in range(160 if thorough else 24)]
+    for i in range(0, len(cases), 4):                 # every fourth document uses the wide random rules instead
+        cases[i] = dict(gen_css_case(rng, odd=False), system='random')
+        cases[i]['queries'] = [qu for qu in cases[i]['queries'] if qu[1] != 'nosuch'][:90]
+    n = run_style_cases(run, 'counter-style-renders', 'c15cr', cases, ua, True, impl_fn='render_counter_doc',
+                        via='full render: @counter-style + counter() / list marker in a document')
+    run.count('counter-style-renders', n, [c['css'] for c in cases], samples=[cases[1]['css'][:400]])
+    run.stream_info('counter-style-renders',
+                    rule='the same sheets (3 of 4 documents) and random @counter-style sheets (1 of 4) put in a real document: '
+                         'every query is an element whose ::before prints counter(n, style) with counter-reset: n value, or a '
+                         'display:list-item element whose marker uses list-style-type: style; the text of the generated box is '
+                         'compared with the model and with the specification function')
 
 
 def ua_cases(rng, ua, thorough):
@@ -796,7 +916,7 @@ def check(run):
         run.oblige('corr:ua-dump', False, str(ua))
         return
     cases = ua_cases(rng, ua, thorough)
-    n = run_style_cases(run, 'ua-styles', 'c15ua', cases, ua, True, per_file=len(cases) // 16 + 1)
+    n = run_style_cases(run, 'ua-styles', 'c15ua', cases, ua, True)
     run.count('ua-styles', n, [(c['queries'][0][1], c['queries'][0][2]) for c in cases],
               samples=[cases[0]['queries'][:3]])
     run.stream_info('ua-styles', styles=len(ua),
@@ -808,17 +928,18 @@ def check(run):
     cases = [{'css': c['css'], 'use_ua': True, 'queries': c['queries'], 'odd': False} for c in load_corpus('css')]
     cases += [gen_css_case(rng, odd=(i % 3 == 2)) for i in range(ncss)]
     cases += [gen_anon_case(rng) for _ in range(ncss // 10)]
-    n = run_style_cases(run, 'random-counter-style', 'c15cs', cases, ua, True, per_file=len(cases) // 16 + 1)
+    n = run_style_cases(run, 'random-counter-style', 'c15cs', cases, ua, True)
     run.count('random-counter-style', n, [c['css'] for c in cases], samples=[cases[-20]['css'], cases[-22]['css']])
     run.stream_info('random-counter-style',
                     rule='1-5 @counter-style rules per case (all systems, extends chains and cycles, range lists, '
                          'negative, pad, prefix/suffix, fallback chains and cycles; every third case also odd names and '
                          'descriptor combinations), parsed by weasyprint.CSS into the CounterStyle dictionary; '
                          '~30 values per style incl. range bounds +-1; symbols() / string styles')
+    padneg_streams(run, rng, ua, thorough)
     scope_stream(run, rng, thorough)
     toc_stream(run, rng, thorough)
     cases = [gen_raw_case(rng) for _ in range(800 if thorough else 100)]
-    n = run_style_cases(run, 'raw-dictionaries', 'c15raw', cases, [], False, per_file=len(cases) // 16 + 1)
+    n = run_style_cases(run, 'raw-dictionaries', 'c15raw', cases, [], False)
     run.count('raw-dictionaries', n, [json.dumps(c['raw']) for c in cases], samples=[cases[0]['raw'][:1]])
     run.stream_info('raw-dictionaries', rule='CounterStyle filled directly with arbitrary entries (missing descriptors, '
                     'bogus systems, odd decimal): exceptions and non-termination must agree with the model too')
@@ -848,10 +969,12 @@ def replay(data):
                               'scope_judge')
         print('judge mask (1 = model differs, 2 = CSS reference differs):', m[0])
         return 1 if m[0] else 0
-    if d.get('stream') in ('ua-styles', 'random-counter-style', 'raw-dictionaries'):
+    if d.get('stream') in ('ua-styles', 'random-counter-style', 'raw-dictionaries', 'pad-negative-direct',
+                           'counter-style-renders'):
         case = {'css': d.get('css'), 'raw': d.get('raw'), 'use_ua': d.get('use_ua', True), 'queries': [d['query']]}
-        (st, o), = common.run_impl('impl_c15', 'render_queries', [case])
-        print('replay: implementation returns', o['outs'] if st == 'ok' else o)
+        fn = d.get('via') if d.get('via') in ('render_queries', 'render_counter_doc') else 'render_queries'
+        (st, o), = common.run_impl('impl_c15', fn, [case])
+        print('replay: implementation prints', o['outs'] if st == 'ok' else o)
         if st != 'ok':
             return 1
         base = []
